@@ -10,11 +10,19 @@ scene-* cases after every layout step the state is judged by the proven checkers
               Check/Topo.lean; for a step that moved the nodes in one axis only, the side
               signature must equal that of the previous state.  A library abort (its own
               COLA_ASSERTs, sanitizer reports) is reported together with the checker verdict of
-              the state dumped at the abort.
+              the state dumped at the abort.  A state of kind `construct` is what the
+              `TopologyConstraints` constructor leaves (nothing moved; `PruneDegenerate` may have
+              removed path points): the surviving points of every open path are compared with
+              `Model/TopoPrune.prune` of the previous state's path (tie; Props/C13Prune says what the
+              model guarantees).  A difference is a DIVERGE unless the history goes on to a failing
+              state: then that failure is the verdict, and its class carries the prefix
+              `prune-mismatch/` (the structural signature "the constructor did not prune as
+              modelled" keeps it apart from the fingerprints of the registered findings).
 -/
 import Driver.Proto
 import AdaptaVerif.Model.Tri
 import AdaptaVerif.Check.Topo
+import AdaptaVerif.Model.TopoPrune
 namespace Driver.C13
 open Driver AdaptaVerif.Num AdaptaVerif.Model.Tri AdaptaVerif.Check.Topo
 
@@ -237,6 +245,57 @@ def hasParallelLeg (s next : Snap) (e : Nat) : Bool :=
   (legs (s.paths[e]!)).any fun ab =>
     (next.dim != 1 && absQ (ab.1.y - ab.2.y) ≤ eps) || (next.dim != 0 && absQ (ab.1.x - ab.2.x) ≤ eps)
 
+
+/-! ### tie of `PruneDegenerate` (TopologyConstraints constructor) to Model/TopoPrune -/
+
+open AdaptaVerif.Model.TopoPrune in
+def toBPt (nodes : Array NodeRect) (a : PathPt) : BPt :=
+  let n := nodes.getD a.node default
+  { x := a.x, y := a.y, cx := n.cx, cy := n.cy }
+
+open AdaptaVerif.Model.TopoPrune in
+/-- some turn test the model evaluates at a coincident pair is so close to 0 that the library's
+    floating-point cross product need not have the same sign: the tie is not compared -/
+def pruneDelicate (bp : Array BPt) : Bool := Id.run do
+  let tiny (c : Rat) : Bool := c != 0 && absQ c < 1 / 1000000
+  for i in [1:bp.size] do
+    if samePos bp[i-1]! bp[i]! then
+      -- the pair (i-1, i); before = i-2, after = i+1
+      if i ≥ 2 && i + 1 < bp.size then
+        let n := bp[i-2]!; let q := bp[i+1]!
+        for v in [bp[i-1]!, bp[i]!] do
+          if tiny (AdaptaVerif.Model.TopoPrune.cross n.x n.y v.x v.y q.x q.y) || tiny (AdaptaVerif.Model.TopoPrune.cross n.x n.y v.x v.y v.cx v.cy)
+              || tiny (AdaptaVerif.Model.TopoPrune.cross v.x v.y q.x q.y v.cx v.cy) then
+            return true
+  return false
+
+structure PruneTie where
+  compared : Nat := 0
+  guarded : Nat := 0
+  pairs : Nat := 0
+  pruned : Nat := 0
+  assertFail : Nat := 0
+  mismatch : Option String := none
+
+open AdaptaVerif.Model.TopoPrune in
+/-- compare what the constructor left (`post`) with the model's pruning of `pre` -/
+def pruneTieEdge (t : PruneTie) (dim e stepNo : Nat) (nodes : Array NodeRect) (pre post : List PathPt) : PruneTie :=
+  let bp := (pre.map (toBPt nodes)).toArray
+  if pruneDelicate bp then { t with guarded := t.guarded + 1 } else
+  let bl := bp.toList
+  let kept := keptIdx dim bl
+  let prA := pre.toArray
+  let expected := kept.map fun i => let a := prA.getD i default; (a.node, a.ri)
+  let got := post.map fun a => (a.node, a.ri)
+  let npairs := ((legs bl).filter fun ab => samePos ab.1 ab.2).length
+  let t := { t with compared := t.compared + 1, pairs := t.pairs + npairs,
+                    pruned := t.pruned + (pre.length - kept.length),
+                    assertFail := t.assertFail + (if allAssertsOk bl then 0 else 1) }
+  if expected == got || t.mismatch.isSome then t else
+    let showPts (l : List (Nat × Nat)) := " ".intercalate (l.map fun nr => s!"{nr.1}.{nr.2}")
+    let pts := " ".intercalate (pre.map fun a => s!"{a.node}.{a.ri}({showQ a.x},{showQ a.y})")
+    { t with mismatch := some s!"TopologyConstraints constructor (axis {dim}) at step {stepNo}, edge {e}: path before [{pts}], PruneDegenerate left [{showPts got}], Model/TopoPrune.prune leaves [{showPts expected}]" }
+
 def abortClass (txt : String) : String :=
   if (txt.splitOn "NoIntersection").length > 1 then "assert-segment-rect-intersection"
   else if (txt.splitOn "assertConvexBend").length > 1 then "assert-convex-bend"
@@ -272,6 +331,10 @@ def checkScene (c : Case) : CaseResult := Id.run do
     let mut nBends := 0
     let mut structural := 0      -- steps in which some path gained / lost a bend
     let mut sigChecks := 0
+    let mut tie : PruneTie := {}
+    -- class prefix of every failure that follows a constructor pass that did not prune as modelled
+    let pm (t : PruneTie) : String := if t.mismatch.isSome then "prune-mismatch/" else ""
+    let pmNote (t : PruneTie) : String := match t.mismatch with | some m => "; earlier: " ++ m | none => ""
     for i in [1:snaps.size] do
       let s := snaps[i]!
       let prev := snaps[i-1]!
@@ -280,6 +343,10 @@ def checkScene (c : Case) : CaseResult := Id.run do
         nLegs := nLegs + (s.paths[e]!.length - 1)
         nBends := nBends + (s.paths[e]!.length - 2)
         if s.paths[e]!.length != prev.paths[e]!.length then structural := structural + 1
+      if s.kind == "construct" && s.dim < 2 then
+        for e in [0:s.paths.size] do
+          if cyc.getD e false then continue
+          tie := pruneTieEdge tie s.dim e i prev.nodes prev.paths[e]! s.paths[e]!
       let where_ := s!"step {i} ({s.kind}, axis {s.dim}) of {snaps.size - 1}"
       let ab := if s.kind == "abort" then
           s!"; library aborted: {abortTxt.getD "?"}" else ""
@@ -293,7 +360,8 @@ def checkScene (c : Case) : CaseResult := Id.run do
             (if endNodeShadow s e j k then "endnode-visibility" else "seg-through-node")
           else if name == "bad-bend" && hasParallelLeg prev s e then "bad-bend-after-parallel-segment"
           else name
-        return { verdict := .specfail s!"class={cls} {where_}: {detail}{ab}",
+        let cls := pm tie ++ cls
+        return { verdict := .specfail s!"class={cls} {where_}: {detail}{ab}{pmNote tie}",
                  stats := [("scene.fail." ++ cls, 1)] }
       | none => pure ()
       -- side signature for single-axis steps
@@ -323,7 +391,8 @@ def checkScene (c : Case) : CaseResult := Id.run do
           if sa != sb then
             let k := (firstSigDiff sa sb).getD 0
             let cls := if endLegShadow s e k then "endnode-visibility" else "side-changed"
-            return { verdict := .specfail s!"class={cls} {where_}: side changed without a visible intersection: edge {e} passes node {k} on a different side: crossings before/at centre {sa.getD k (0,0)} → {sb.getD k (0,0)}{ab}",
+            let cls := pm tie ++ cls
+            return { verdict := .specfail s!"class={cls} {where_}: side changed without a visible intersection: edge {e} passes node {k} on a different side: crossings before/at centre {sa.getD k (0,0)} → {sb.getD k (0,0)}{ab}{pmNote tie}",
                      stats := [("scene.fail." ++ cls, 1)] }
       -- two-pass steps (applyResizes / handleResizes: x pass, then y pass): parity of the side
       -- count on both axes, corrected for path end points passing over the ray
@@ -343,14 +412,20 @@ def checkScene (c : Case) : CaseResult := Id.run do
       -- the library stopped itself (its own invariant checks / a sanitizer) although every state
       -- we saw passes our checkers: still a failing input (CRASH)
       let inResize := snaps.back!.kind == "abort" && snaps.back!.dim == 2
-      let cls := (if inResize then "resize-" else "") ++ abortClass txt
-      return { verdict := .specfail s!"class=crash-{cls} CRASH after {snaps.size - 1} states, all of which pass the state checkers: {txt}",
-               stats := [("scene.fail.crash-" ++ cls, 1)] }
+      let cls := pm tie ++ "crash-" ++ (if inResize then "resize-" else "") ++ abortClass txt
+      return { verdict := .specfail s!"class={cls} CRASH after {snaps.size - 1} states, all of which pass the state checkers: {txt}{pmNote tie}",
+               stats := [("scene.fail." ++ cls, 1)] }
+    | none => pure ()
+    match tie.mismatch with
+    | some m => return { verdict := .diverge s!"prune tie: {m}", stats := [("prune.mismatch", 1)] }
     | none => pure ()
     return { verdict := .ok, nontrivial := structural > 0,
              stats := [("scene.states", nStates), ("scene.legs", nLegs), ("scene.bends", nBends),
                        ("scene.structural-steps", structural), ("scene.signature-checks", sigChecks),
-                       ("scene.nodes", nNodes), ("scene.edges", ends.size)] }
+                       ("scene.nodes", nNodes), ("scene.edges", ends.size),
+                       ("prune.tie.paths", tie.compared), ("prune.tie.guarded", tie.guarded),
+                       ("prune.tie.coincident-pairs", tie.pairs), ("prune.tie.points-pruned", tie.pruned),
+                       ("prune.tie.model-assert-fails", tie.assertFail)] }
 
 def run (_args : List String) : IO UInt32 :=
   runCases (fun c => if c.tag.startsWith "tri" then checkTri c else checkScene c)
